@@ -2,6 +2,8 @@
    Ops: rubiks_cube.{step, state, judge, instance, play} -/
 import JumanjiModel.Bridge.Json
 import JumanjiModel.Env.RubiksCube.Model
+import JumanjiModel.Env.RubiksCube.Bounds
+import JumanjiModel.Bridge.PuzzleBounds
 open Lean Jb
 
 namespace Jb.RubiksCube
@@ -152,7 +154,13 @@ def opPlay : Op := fun j => do
               ("goal", jCube (goal cfg.n)), ("solved_cube", jCube (solvedCube cfg.n)),
               ("l1_solved", jBool (isSolved l1)), ("l2_solved", jBool (decide (Monochrome cfg.n l2)))])
 
+/-- C01 bounds op: {"cfg"} → the proved interval of every observation leaf -/
+def opBounds : Op := fun j => do
+  let cfg ← getCfg j
+  pure (jBoundsTable (obsBounds cfg))
+
 def ops : List (String × Op) :=
   [("rubiks_cube.step", opStep), ("rubiks_cube.state", opState), ("rubiks_cube.judge", opJudge),
-   ("rubiks_cube.instance", opInstance), ("rubiks_cube.play", opPlay)]
+   ("rubiks_cube.instance", opInstance), ("rubiks_cube.play", opPlay),
+   ("rubiks_cube.bounds", opBounds)]
 end Jb.RubiksCube
